@@ -239,6 +239,8 @@ theorem step_now_mono (s : SlotBelt) (op : Op) : s.now ≤ (s.step op).1.now := 
   cases op with
   | reservePut p => exact hf _ (reservePut_f5 _ p)
   | reserveGet p => exact hf _ (reserveGet_f5 _ p)
+  | reservePutP p pr => exact hf _ (reservePutP_f5 _ p pr)
+  | reserveGetP p pr => exact hf _ (reserveGetP_f5 _ p pr)
   | put p t x =>
     simp only
     unfold SlotBelt.put
